@@ -7,10 +7,26 @@ import (
 	"strconv"
 	"strings"
 
+	"bytes"
+	"sync"
+	"time"
+
 	"github.com/github/git-sizer/counts"
+	"github.com/github/git-sizer/meter"
 	"github.com/github/git-sizer/git"
 	"github.com/github/git-sizer/sizes"
 )
+
+type lockedBuf struct {
+	mu  sync.Mutex
+	buf bytes.Buffer
+}
+
+func (l *lockedBuf) Write(p []byte) (int, error) {
+	l.mu.Lock()
+	defer l.mu.Unlock()
+	return l.buf.Write(p)
+}
 
 func hist(nums []string) sizes.HistorySize {
 	n := func(i int) uint64 { return u64(nums[i]) }
@@ -30,6 +46,38 @@ func hist(nums []string) sizes.HistorySize {
 // handleMore holds the commands added for the later properties.
 func handleMore(cmd string, a []string) (string, bool) {
 	switch cmd {
+	case "meter":
+		// meter <period_ns> <script: S<f>,I<k>,W<ns>,D,...>
+		period := time.Duration(u64(a[0]))
+		var lb lockedBuf
+		m := meter.NewProgressMeter(&lb, period)
+		for _, op := range strings.Split(a[1], ",") {
+			switch op[0] {
+			case 'S':
+				m.Start("phase" + op[1:] + ": %d")
+			case 'I':
+				k := u64(op[1:])
+				for i := uint64(0); i < k; i++ {
+					m.Inc()
+				}
+			case 'W':
+				time.Sleep(time.Duration(u64(op[1:])))
+			case 'Y':
+				// busy Incs interleaved with yields
+				k := u64(op[1:])
+				for i := uint64(0); i < k; i++ {
+					m.Inc()
+					time.Sleep(0)
+				}
+			case 'D':
+				m.Done()
+			}
+		}
+		time.Sleep(3 * period)
+		lb.mu.Lock()
+		out := hx(lb.buf.Bytes())
+		lb.mu.Unlock()
+		return out, true
 	case "table":
 		// table <threshold> <namestyle> <22 nums comma separated> <groups sym=name=count,...|->
 		var thr sizes.Threshold
